@@ -139,7 +139,7 @@ func ReportKnown(t testing.TB, property, id, what string) {
 // Inconclusive marks the run as not decided (generator regression, resource
 // trouble). The driver maps it to exit status 2, never to a violation.
 func Inconclusive(t testing.TB, format string, args ...any) {
-	fmt.Printf("VERIF-INCONCLUSIVE: %s\n", fmt.Sprintf(format, args...))
+	fmt.Printf("VERIF-INCONCLUSIVE: %s %s\n", strings.SplitN(t.Name(), "/", 2)[0], fmt.Sprintf(format, args...))
 	t.Errorf("inconclusive: "+format, args...)
 }
 
@@ -276,7 +276,7 @@ func (c *Collector) flush() {
 			}
 		}
 		if len(missing) > 0 {
-			fmt.Printf("VERIF-INCONCLUSIVE: %s produced no case of class %s\n", c.name, strings.Join(missing, ", "))
+			fmt.Printf("VERIF-INCONCLUSIVE: %s produced no case of class %s\n", strings.SplitN(c.t.Name(), "/", 2)[0], strings.Join(missing, ", "))
 			c.t.Errorf("inconclusive: required classes never generated: %v", missing)
 		}
 	}
